@@ -5,6 +5,7 @@
 -/
 import ElfVerif.Model.Show
 import ElfVerif.Model.Stream
+import ElfVerif.Model.CfgEval
 open Elf
 
 def hexVal (c : Char) : Nat :=
@@ -417,6 +418,9 @@ def handle (line0 : String) : String :=
   | ["prefix", sp, queries, k, hex] =>
     let arr := parseHex hex
     handleFile sp queries (Slice.ofArray (arr.extract 0 (nat! k)))
+  | ["cfg", a, st, t] =>
+    let f : Cfg.FS := ⟨a == "1", st == "1", t == "1"⟩
+    s!"nostd={showBool (Cfg.noStd f)} externalloc={showBool (Cfg.externAlloc f)} std={showBool (Cfg.hasStd f)}"
   | ["file", sp, queries, hex] => handleFile sp queries (sliceOfHex hex)
   | ["stream", sp, sched, ops, hex] => handleStream sp sched ops (parseHex hex)
   | ["sprefix", sp, ops, k, hex] => handleStream sp "-" ops ((parseHex hex).extract 0 (nat! k))
